@@ -21,7 +21,7 @@
    turns it into (Id, Frequencies, Length = number of tokens).  In the model a
    change is (id, tokens); tokens = [] is Length 0.  The analyser itself is
    outside (the harness calls the same analyser independently). *)
-From Coq Require Import List NArith ZArith QArith Bool.
+From Coq Require Import List NArith ZArith QArith Qabs Bool Sorted.
 From Semadb Require Import Bytes Value Obs Dyadic Model_C01 Model_C02 Model_C04 Model_C05.
 Import ListNotations.
 Open Scope N_scope.
@@ -167,3 +167,46 @@ Definition corpus_of_hist (h : list batch_c) : list tdoc :=
            (dedup_b (map fst (concat h))).
 Fixpoint find_doc (id : uuid) (c : list tdoc) : option tdoc :=
   match c with [] => None | d :: r => if bytes_eqb id (td_id d) then Some d else find_doc id r end.
+
+(* ------------------------- specification-level vocabulary of Props_C05.v --- *)
+(* allowed: the id list the spec side (Run_C05.judge_query) intersects with *)
+Definition allowed_ok (filt : option idset) (allowed : list uuid) (c : list tdoc) : Prop :=
+  match filt with
+  | Some f => forall x, mem_bytes x allowed = mem_bytes x f
+  | None => forall d, In d c -> mem_bytes (td_id d) allowed = true
+  end.
+
+(* non-increasing score order *)
+Definition score_ge (score : uuid -> Q) (a b : uuid) : Prop := (score b <= score a)%Q.
+
+(* the tokens the live store gives to every id: the text at [path] analysed through the table [tk]
+   (absent point, absent / non-string field, text missing from the table: no tokens) *)
+Definition live_tokens (path : bytes) (tk : list (bytes * list bytes)) (live : store) (id : uuid) : list bytes :=
+  match st_get id live with
+  | Some d => match prop_value path d with
+              | QFound (VStr s) => match tokens_of s tk with Some toks => toks | None => [] end
+              | _ => []
+              end
+  | None => []
+  end.
+
+Local Open Scope Q_scope.
+(* |a - b| <= tol * max(1, |b|) *)
+Definition close_rel (tol a b : Q) : Prop :=
+  (1 <= Qabs b /\ Qabs (a - b) <= tol * Qabs b) \/ (Qabs b <= 1 /\ Qabs (a - b) <= tol).
+Definition row_ok (tol : Q) (cands : list (uuid * Q)) (r : row) : Prop :=
+  exists s b, In (r_id r, s) cands /\ r_score r = Some b /\ f32_finite b = true /\
+              close_rel tol (f32_to_Q b) s.
+
+(* what code 0 of text_code means *)
+Definition text_rows_spec (limit : N) (w : option N) (cands : list (uuid * Q)) (rows : list row) : Prop :=
+  NoDup (map r_id rows) /\
+  (forall r, In r rows -> row_ok (1 # 10000) cands r) /\
+  length rows = Nat.min (N.to_nat limit) (length cands) /\
+  (exists ss, map row_score rows = map Some ss /\
+              StronglySorted (fun a b => b <= a) ss /\
+              forall c, In c cands -> ~ In (fst c) (map r_id rows) ->
+                        forall x, In x ss -> snd c <= x + (1 # 10000) * (1 + Qabs x)) /\
+  (forall r x, In r rows -> row_score r = Some x ->
+               close_rel (1 # 1000000) (f32_to_Q (r_hybrid r)) (weight_q w * x)) /\
+  (forall r, In r rows -> r_dist r = None).
